@@ -1358,3 +1358,339 @@ def flw14(ctx):
             r.report("FLW-14|%s|set-before-full-match" % name, fn_loc(b, (bad[0] if bad else guard_if).get("ln")), b.path,
                      "`%s` is set while the terms of a romaniser are still being compared: an alias that matches a tone and then fails on a later term still drops the syllable's tone (`ha:[tone:51]x > Q` prints `han51` as `han`)" % name)
     return r
+
+
+# ---------------------------------------------------------------- ENV-6: an element inside a set matches like the element alone
+
+PE = "asca::parser::ParseElement::"
+
+
+def env6(ctx):
+    """`_{$,t}` must hold wherever `_$` or `_t` holds: SubRule::context_match_set dispatches on the kind of each
+    alternative with its own copy of the arms of SubRule::context_match. For every kind the set handles, the copy does
+    what the original does outside an insertion (`ins_match_before == false`): same test, same matcher, same arguments."""
+    from engine_pol import Canon
+    r = RuleResult("ENV-6", "every element kind that context_match_set handles is matched by the same code as in context_match (outside the insertion special case): same boundary test, same matcher call, same arguments", floor=5)
+    lib = ctx.lib
+    top = ctx.fn(lib, "asca::subrule::SubRule::context_match")
+    st = ctx.fn(lib, "asca::subrule::SubRule::context_match_set")
+
+    def canon_leaf(e):
+        c = Canon()
+        return json.dumps(c.expr(e), sort_keys=True, default=str)
+
+    def arms_of(fb):
+        ms = [m for m in hirq.matches(fb) if (m.get("sty") or "").lstrip("&").endswith("asca::parser::ParseElement")]
+        if not ms:
+            raise AnchorMissing("ENV-6: %s: match on the element kind not found" % fb.path)
+        m = max(ms, key=lambda x: len(x["arms"]))
+        out = {}
+        for arm in m["arms"]:
+            for p in hirq.flat_pats(arm["pat"]):
+                v = (p.get("path") or "")
+                if v.startswith(PE):
+                    out[v[len(PE):]] = arm
+        return out, m
+
+    ins_hid = None
+    for p in top.hir.get("params") or []:
+        for q in hirq.walk_pats(p):
+            if q.get("p") == "bind" and q.get("name") == "ins_match_before":
+                ins_hid = q.get("hid")
+
+    def specialise(e):
+        """the arm body outside an insertion: `if ins_match_before { A } else { B }` -> B"""
+        e = hirq.strip(e)
+        if isinstance(e, dict) and e.get("e") == "if":
+            c = hirq.strip(e["cond"])
+            if c.get("e") == "path" and c.get("hid") == ins_hid and ins_hid is not None and e.get("else") is not None:
+                return specialise(e["else"])
+        return e
+
+    ta, _ = arms_of(top)
+    sa, sm = arms_of(st)
+    n = 0
+    for kind, arm in sorted(sa.items()):
+        if hirq.arm_is_pure_panic(arm["body"]) or kind not in ta:
+            continue
+        n += 1
+        a = canon_leaf(specialise(ta[kind]["body"]))
+        b_ = canon_leaf(specialise(arm["body"]))
+        ok = a == b_
+        r.inst("set alternative of kind %s is matched like a lone %s" % (kind, kind), fn_loc(st, arm.get("ln") or sm.get("ln")), "ok" if ok else "report")
+        if not ok:
+            r.report("ENV-6|context_match_set|%s" % kind, fn_loc(st, arm.get("ln") or sm.get("ln")), st.path,
+                     "inside a set, an element of kind %s is matched by different code than the same element standing alone in the environment: `_{%s,x}` does not hold everywhere `_%s` holds" % (kind, "$" if kind == "SyllBound" else kind, "$" if kind == "SyllBound" else kind))
+    if n < 5:
+        raise AnchorMissing("ENV-6: %d element kinds compared between context_match_set and context_match (expected >= 5)" % n)
+    return r
+
+
+# ---------------------------------------------------------------- SHR-5: a modifier overlay lets the overlaid value win, slot by slot
+
+MODIFIERS_T = "asca::parser::Modifiers"
+SUPR_SLOTS = ("suprs.stress[0]", "suprs.stress[1]", "suprs.length[0]", "suprs.length[1]", "suprs.tone")
+
+
+class _Overlay:
+    """tiny symbolic evaluator: every slot of the base (B) and of the overlay (O) is None or a tagged value"""
+
+    class Cont(Exception):
+        pass
+
+    def __init__(self, fn, B, O, scen):
+        self.fn, self.B, self.O = fn, B, O          # HirIds of the two Modifiers locals
+        self.mem = dict(scen)                        # ("B"|"O", slot) -> None | tag
+        self.env = {}                                # loop locals: hid -> ("val", v) | ("ref", key) | ("idx",)
+
+    def key_of(self, e):
+        """(owner, slot) for a place expression `chr.suprs.stress[0]`, `params.nodes[i]`, `*j`"""
+        e = hirq.strip(e)
+        parts = []
+        while isinstance(e, dict):
+            k = e.get("e")
+            if k == "unary" and e.get("op") == "Deref":
+                e = hirq.strip(e["a"])
+            elif k == "index":
+                i = hirq.strip(e["i"])
+                parts.append("[%s]" % (i["lit"] if i.get("e") == "lit" else "*"))
+                e = hirq.strip(e["a"])
+            elif k == "field":
+                parts.append("." + e["name"])
+                e = hirq.strip(e["a"])
+            else:
+                break
+        if not (isinstance(e, dict) and e.get("e") == "path" and "hid" in e):
+            return None
+        slot = "".join(reversed(parts)).lstrip(".")
+        if e["hid"] == self.B:
+            return ("B", slot)
+        if e["hid"] == self.O:
+            return ("O", slot)
+        b = self.env.get(e["hid"])
+        if b and b[0] == "ref" and not parts:
+            return b[1]
+        return None
+
+    def read(self, key):
+        owner, slot = key
+        if slot in ("suprs",):
+            return ("whole", owner)
+        if slot in ("suprs.stress", "suprs.length"):
+            return ("pair", owner, slot)
+        return self.mem.get((owner, slot))
+
+    def value(self, e):
+        e = hirq.strip(e)
+        k = e.get("e")
+        if k == "path" and e.get("hid") in self.env and self.env[e["hid"]][0] == "val":
+            return self.env[e["hid"]][1]
+        if k == "path" and (e.get("path") or "").endswith("Option::None"):
+            return None
+        if k == "unary" and e.get("op") == "Deref":
+            inner = hirq.strip(e["a"])
+            if inner.get("e") == "path" and inner.get("hid") in self.env and self.env[inner["hid"]][0] == "val":
+                return self.env[inner["hid"]][1]
+        key = self.key_of(e)
+        if key is not None:
+            return self.read(key)
+        if k == "if":
+            return self.value(e["then"]) if self.cond(e["cond"]) else self.value(e["else"])
+        if k == "mcall" and e["name"] in ("or",) and len(e["args"]) == 1:
+            a = self.value(e["recv"])
+            return a if a is not None else self.value(e["args"][0])
+        if k == "mcall" and e["name"] in ("clone", "copied", "cloned") and not e["args"]:
+            return self.value(e["recv"])
+        if k == "block" and e.get("tail") is not None and not e.get("stmts"):
+            return self.value(e["tail"])
+        raise AnchorMissing("%s: overlay value of `%s` (line %s) not understood" % (self.fn, k if k != "mcall" else "." + e["name"] + "()", e.get("ln")))
+
+    def cond(self, c):
+        c = hirq.strip(c)
+        if c.get("e") == "unary" and c.get("op") == "Not":
+            return not self.cond(c["a"])
+        if c.get("e") == "binary" and c.get("op") in ("And", "Or"):
+            a, b = self.cond(c["a"]), self.cond(c["b"])
+            return (a and b) if c["op"] == "And" else (a or b)
+        if c.get("e") == "mcall" and c["name"] in ("is_none", "is_some") and not c["args"]:
+            v = self.value(c["recv"])
+            if isinstance(v, tuple) and v and v[0] in ("whole", "pair"):
+                raise AnchorMissing("%s: presence test of a whole group of slots (line %s)" % (self.fn, c.get("ln")))
+            return (v is None) == (c["name"] == "is_none")
+        raise AnchorMissing("%s: overlay condition (line %s) not understood" % (self.fn, c.get("ln")))
+
+    def assign(self, lhs, rhs):
+        key = self.key_of(lhs)
+        if key is None or key[0] != "B":
+            return
+        v = self.value(rhs)
+        owner, slot = key
+        if isinstance(v, tuple) and v and v[0] == "whole":
+            for s_ in SUPR_SLOTS:
+                self.mem[("B", s_)] = self.mem.get((v[1], s_))
+        elif isinstance(v, tuple) and v and v[0] == "pair":
+            for i in (0, 1):
+                self.mem[("B", "%s[%d]" % (slot, i))] = self.mem.get((v[1], "%s[%d]" % (v[2], i)))
+        else:
+            self.mem[("B", slot)] = v
+
+    def run(self, e):
+        e = hirq.strip(e) if isinstance(e, dict) and e.get("e") == "block" and not e.get("stmts") else e
+        if not isinstance(e, dict):
+            return
+        k = e.get("e")
+        if k == "block":
+            for s_ in e.get("stmts", []):
+                self.run(s_)
+            if e.get("tail") is not None:
+                self.run(e["tail"])
+        elif k == "semi":
+            self.run(e["a"])
+        elif k == "assign":
+            self.assign(e["lhs"], e["rhs"])
+        elif k == "if":
+            if self.cond(e["cond"]):
+                self.run(e["then"])
+            elif e.get("else") is not None:
+                self.run(e["else"])
+        elif k == "continue":
+            raise _Overlay.Cont()
+        elif k == "match" and "ForLoop" in str(e.get("src")):
+            self.loop(e)
+        elif k in ("let", "call", "mcall", "path", "lit", "tup", "struct", "ret", "addr", "unary"):
+            return
+        elif k in ("loop", "match"):
+            if any(self.key_of(y.get("lhs")) and self.key_of(y["lhs"])[0] == "B" for y in hirq.walk(e) if y["e"] == "assign"):
+                raise AnchorMissing("%s: statement `%s` at line %s writes the base modifiers in a way the overlay reader does not follow" % (self.fn, k, e.get("ln")))
+
+    def loop(self, e):
+        """`for (i, p) in O.F.iter().enumerate()` / `for (j, n) in B.F.iter_mut().zip(O.F.iter())`: one symbolic element"""
+        from engine_flw import for_loops
+        ls = for_loops(e)
+        if not ls:
+            raise AnchorMissing("%s: for loop at line %s not understood" % (self.fn, e.get("ln")))
+        pat, it, body, ln = ls[0]
+
+        def elem(x):
+            """(owner, field) whose elements an iterator expression yields, and whether mutably"""
+            x = hirq.strip(x)
+            names = []
+            while isinstance(x, dict) and x.get("e") == "mcall":
+                names.append(x["name"])
+                if x["name"] == "zip":
+                    return ("zip", elem(x["recv"]), elem(x["args"][0]))
+                x = hirq.strip(x["recv"])
+            key = self.key_of(x)
+            if key is None:
+                return None
+            return ("it", key, "enumerate" in names, "iter_mut" in names)
+        src = elem(it)
+        if src is None:
+            return                  # a loop over something else
+        subs = pat.get("pats") if pat.get("p") == "tup" else [pat]
+
+        def bind(p, what):
+            p0 = p
+            while p0.get("p") == "ref":
+                p0 = p0["sub"]
+            if p0.get("p") == "bind" and "hid" in p0:
+                self.env[p0["hid"]] = what
+        if src[0] == "it":
+            _, key, enum, mut = src
+            ekey = (key[0], key[1] + "[*]")
+            targets = [("idx",)] if enum else []
+            targets.append(("ref", ekey) if mut else ("val", self.read(ekey)))
+            if enum and len(subs) == 2:
+                bind(subs[0], ("idx",))
+                bind(subs[1], targets[-1])
+            elif not enum:
+                bind(subs[0] if len(subs) == 1 else pat, targets[-1])
+        elif src[0] == "zip" and len(subs) == 2 and src[1] and src[2]:
+            for p, sx in zip(subs, (src[1], src[2])):
+                ekey = (sx[1][0], sx[1][1] + "[*]")
+                bind(p, ("ref", ekey) if sx[3] else ("val", self.read(ekey)))
+        else:
+            raise AnchorMissing("%s: iterator of the loop at line %s not understood" % (self.fn, ln))
+        try:
+            self.run(body)
+        except _Overlay.Cont:
+            pass
+
+
+OVERLAY_SITES = [
+    # (function, base local, overlay local, which supr behaviour is required)
+    ("asca::parser::Parser::join_group_with_params", "chr", "params", "slotwise"),
+    ("asca::alias::parser::AliasParser::join_group_with_params", "chr", "params", "slotwise"),
+    ("asca::subrule::SubRule::match_ipa_with_modifiers", "joined_mods", "mods", "copy"),
+    ("asca::word::Word::alias_match_ipa_with_mods", "joined_mods", "mods", "copy"),
+]
+
+
+def shr5(ctx):
+    """`V:[+hi]`, `a:[+nasal]`: a matrix of modifiers is laid over a base (the group's matrix, the segment's own bundle).
+    Slot by slot -- each node, each feature, stress, sec.stress, long, overlong, tone -- the overlaid value wins where it
+    is given and the base value stays where it is not. Evaluated symbolically for every presence combination."""
+    import itertools
+    r = RuleResult("SHR-5", "modifier overlays (group:[params], ipa:[mods]) are slot-wise: for every node / feature / suprasegmental slot the result is the overlaid value if present, else the base value", floor=140)
+    lib = ctx.lib
+    for path, bname, oname, supr_mode in OVERLAY_SITES:
+        fb = ctx.fn(lib, path)
+        hids = {}
+        for n in hirq.walk(fb.hir["body"]):
+            if n["e"] == "let":
+                for q in hirq.walk_pats(n["pat"]):
+                    if q.get("p") == "bind" and "hid" in q:
+                        hids.setdefault(q["name"], q["hid"])
+        for p in fb.hir.get("params") or []:
+            for q in hirq.walk_pats(p):
+                if q.get("p") == "bind" and "hid" in q:
+                    hids.setdefault(q["name"], q["hid"])
+        # roles by type and use: the base is the Modifiers local that is assigned into
+        mods_locals = {}
+        for n in hirq.walk(fb.hir["body"]):
+            if n["e"] == "path" and "hid" in n and (n.get("ty") or "").lstrip("&").replace("mut ", "") == MODIFIERS_T:
+                mods_locals[n["hid"]] = n.get("local")
+        written = {hirq.path_hid(_root_of(a["lhs"])) for a in hirq.walk(fb.hir["body"]) if a["e"] == "assign"}
+        bases = [h for h in mods_locals if h in written]
+        overs = [h for h in mods_locals if h not in written]
+        if len(bases) != 1 or len(overs) != 1:
+            raise AnchorMissing("SHR-5: %s: base / overlay Modifiers locals not identified (%s written, %s read-only)" % (path, [mods_locals[h] for h in bases], [mods_locals[h] for h in overs]))
+        B, O = bases[0], overs[0]
+        short = path.rsplit("::", 2)[-2] + "::" + path.rsplit("::", 1)[-1]
+        # arrays: one symbolic element, four presence combinations
+        for arr in ("nodes", "feats"):
+            for bv, ov in itertools.product((None, "base"), (None, "over")):
+                ev = _Overlay(path, B, O, {("B", arr + "[*]"): bv, ("O", arr + "[*]"): ov})
+                ev.run(fb.hir["body"])
+                got = ev.mem.get(("B", arr + "[*]"))
+                want = ov if ov is not None else bv
+                ok = got == want
+                r.inst("%s: %s element with base=%s overlay=%s -> %s" % (short, arr, bv, ov, got), fn_loc(fb), "ok" if ok else "report")
+                if not ok:
+                    r.report("SHR-5|%s|%s|base=%s|over=%s" % (short, arr, bv, ov), fn_loc(fb), path,
+                             "for a %s slot where the base has %s and the overlaid matrix has %s the result is %s (expected %s): %s" % (
+                                 arr[:-1], bv or "nothing", ov or "nothing", got or "nothing", want or "nothing",
+                                 "the base value wins over the explicitly given one (`S:[+syll]` stays -syll)" if (bv and ov and got == bv) else "a given modifier is dropped or a base value is lost"))
+        # suprasegmentals: all 32 presence combinations of the overlay (the bases carry none)
+        n_bad = 0
+        for combo in itertools.product((None, "over"), repeat=len(SUPR_SLOTS)):
+            scen = {("O", s_): v for s_, v in zip(SUPR_SLOTS, combo)}
+            scen.update({("B", s_): None for s_ in SUPR_SLOTS})
+            ev = _Overlay(path, B, O, scen)
+            ev.run(fb.hir["body"])
+            bad = [s_ for s_, v in zip(SUPR_SLOTS, combo) if ev.mem.get(("B", s_)) != v]
+            given = [s_.replace("suprs.", "") for s_, v in zip(SUPR_SLOTS, combo) if v]
+            r.inst("%s: suprasegmentals given {%s} arrive as given" % (short, ", ".join(given) or "none"), fn_loc(fb), "ok" if not bad else "report", nontrivial=bool(given))
+            if bad and n_bad < 3:
+                n_bad += 1
+                r.report("SHR-5|%s|suprs|%s" % (short, "+".join(given) or "none"), fn_loc(fb), path,
+                         "when the overlaid matrix gives {%s}, the slot(s) %s of the result differ from what was given: `V:[+sec.stress]` / `V:[+overlong]` lose the modifier unless its partner is given too"
+                         % (", ".join(given) or "nothing", ", ".join(x.replace("suprs.", "") for x in bad)))
+    return r
+
+
+def _root_of(e):
+    e = hirq.strip(e)
+    while isinstance(e, dict) and e.get("e") in ("field", "index", "unary"):
+        e = hirq.strip(e["a"])
+    return e
